@@ -34,6 +34,12 @@ def gen(seed, tier):
                 rep = dict(rep, gene_length=300)
             for algo in (("gp", "rs", "hc", "opo") if big else (("gp", "hc") if rep["kind"] in ("tree", "stack") else ("gp", "rs", "opo")[len(cases) % 3:][:1] + ("hc",)[: len(cases) % 2])):
                 cases.append({"op": "repro", "decl": d, "rep": rep, "algo": algo, "seed": r.randrange(1000), "budget": 30 if algo == "gp" else 12, "pop": 6, "repeat": 2})
+    # generations made mostly by crossover (the default step crosses over with probability 0.01): every representation
+    for d in decls[:2]:
+        for rep in rc.rep_specs(r, max_depth=3):
+            if rep["kind"] == "stack":
+                rep = dict(rep, gene_length=300)
+            cases.append({"op": "repro", "decl": d, "rep": rep, "algo": "gp", "seed": r.randrange(1000), "budget": 40, "pop": 8, "repeat": 2, "step": "xover"})
     # GeneticProgramming constructed without random= (its own default source), twice in one process
     for rep in ({"kind": "dsge", "max_depth": 3}, {"kind": "stack", "gene_length": 300}):
         cases.append({"op": "repro", "decl": fam[0], "rep": rep, "algo": "gp", "seed": 0, "budget": 24, "pop": 6, "repeat": 3, "default_random": True})
